@@ -423,6 +423,7 @@ func (f *faultReader) Read(p []byte) (int, error) {
 type limitWriter struct {
 	k         int
 	nonSticky bool // a call that does not fit is refused as a whole (0, error); later calls that fit are accepted again
+	fullCount bool // a write-behind destination: it takes all of p into its own buffer and THEN fails pushing it on — (len(p), error)
 	buf       []byte
 	short  bool // report short writes with a nil error... never: io.Writer contract requires an error
 	failed int  // number of calls that returned an error
@@ -437,6 +438,12 @@ func (w *limitWriter) Write(p []byte) (int, error) {
 		w.k -= len(p)
 		w.buf = append(w.buf, p...)
 		return len(p), nil
+	}
+	if w.fullCount { // the error comes with a full count: legal (an error is REQUIRED for n < len(p), not forbidden otherwise)
+		w.buf = append(w.buf, p[:w.k]...)
+		w.k = 0
+		w.failed++
+		return len(p), errInjectedWrite
 	}
 	if w.nonSticky { // a fixed-capacity destination: this piece is refused, smaller ones may still go in
 		w.failed++
